@@ -12,6 +12,11 @@ def instances(tier):
         L.append(Inst("step-%s-4slots" % names[st], "C17/step.c", d, link=[], unwind=6, timeout=1500, solver="cadical",
                       unwind_fail_is_violation=True,
                       desc={"what": "one %s from an ARBITRARY 4-slot table state satisfying the representation invariant, keys and hash function symbolic" % names[st]}))
+    # STEP 4 (thaw's dumping branch, 8 slots) ran out of memory: the eviction loop's remove_glyph is part of the encoding even when it cannot run
+    for nm, st, hw in (("clear_table-4slots", 3, 2),) + ((("clear_table-8slots", 3, 4),) if tier == "thorough" else ()):
+        d = {"PIXMAN_VERIF_GLYPH_HIGH_WATER": hw, "STEP": st}
+        L.append(Inst("step-" + nm, "C17/step.c", d, link=[], unwind=2 * hw + 2, timeout=1500, solver="cadical", unwind_fail_is_violation=True,
+                      desc={"what": "clear_table / the table-dumping branch of pixman_glyph_cache_thaw from an ARBITRARY invariant state (live entries linked in the MRU list): all slots empty, both counters 0, every image released once, MRU list empty"}))
     if tier == "thorough":
         for st in (0,):
             d = {"PIXMAN_VERIF_GLYPH_HIGH_WATER": 4, "STEP": st}
@@ -26,12 +31,14 @@ TEXT = ("Inductive bounded model checking of the glyph cache's open-addressing t
         "empty slot), with symbolic keys and - through a guarded hook - an uninterpreted hash function (every collision pattern), one "
         "lookup returns exactly the live entry or NULL and terminates, and one insert either fills exactly one free slot and re-establishes "
         "the invariant (so later lookups terminate) or refuses, leaking nothing, only when the table is full. Because the step is from an "
-        "arbitrary invariant state it covers histories of any length for these two operations.")
+        "arbitrary invariant state it covers histories of any length for these two operations. A third step, clear_table (what thaw calls when "
+        "tombstones dominate) from an arbitrary invariant state with the live entries linked in the MRU list, leaves every slot empty, both "
+        "counters 0, every image released once and the MRU list empty.")
 NOTE = ("Hooks: PIXMAN_VERIF_GLYPH_HIGH_WATER (small table) and PIXMAN_VERIF_GLYPH_HASH (hash replaced by an uninterpreted function), both "
         "behind FREEDESKTOP_PIXMAN_VERIF. remove (tombstone reclamation), thaw eviction order and the glyph drawing equivalences could not "
         "be decided: the encodings exceed memory/time (5.4M SAT variables for one remove from a 4-slot table; see DESIGN.md) - not claimed. "
         "Image functions are stubbed to opaque tokens in this harness.")
-RULE = "C17 instance = operation x table size."
+RULE = "C17 instance = operation (lookup, insert, clear_table) x table size."
 BOUNDS = {"table": "4 slots (8 at thorough)", "keys": "full-width symbolic", "hash": "uninterpreted"}
-OUTSIDE = ["pixman_glyph_cache_remove / tombstone reclamation", "thaw eviction (LRU order)", "composite_glyphs / composite_glyphs_no_mask equivalences", "the real table size (32768 slots)"]
+OUTSIDE = ["pixman_glyph_cache_remove / tombstone reclamation", "thaw as a whole incl. eviction in LRU order (its loop calls remove: out of memory even on the dumping branch)", "composite_glyphs / composite_glyphs_no_mask equivalences", "the real table size (32768 slots)"]
 ASSUMPTIONS = ["pre-state satisfies the representation invariant RI1-RI4 (harness/C17/step.c)", "inserting a key that is already live is a caller error", "image functions stubbed"]
